@@ -1829,7 +1829,14 @@ class StridedInterval:
 
         result_interval = []
         for si in splitted_si:
-            lb = ~si.upper_bound
+            if si.lower_bound > si.upper_bound:
+                # the piece beyond the south pole begins after the upper bound: it holds no member
+                continue
+            # the complement of the last member is the first member of the result
+            last = si.upper_bound
+            if self.stride > 0:
+                last -= (si.upper_bound - si.lower_bound) % self.stride
+            lb = ~last
             ub = ~si.lower_bound
             stride = self.stride
 
